@@ -2,7 +2,9 @@ use crate::utils::pckg;
 use crate::utils::state::{get_handles_sub_state, mutate_map};
 use duckscript::types::command::{Command, CommandInvocationContext, CommandResult};
 use duckscript::types::runtime::StateValue;
-use java_properties::read;
+use encoding_rs::UTF_8;
+use java_properties::PropertiesIter;
+use std::collections::HashMap;
 
 #[cfg(test)]
 #[path = "./mod_test.rs"]
@@ -49,8 +51,14 @@ impl Command for CommandImpl {
                     )
                 };
 
-            match read(text.as_bytes()) {
-                Ok(data) => {
+            let mut data = HashMap::new();
+            let read_result = PropertiesIter::new_with_encoding(text.as_bytes(), UTF_8)
+                .read_into(|key, value| {
+                    data.insert(key, value);
+                });
+
+            match read_result {
+                Ok(_) => {
                     let state = get_handles_sub_state(context.state);
 
                     let result = mutate_map(key, state, |map| {
